@@ -267,7 +267,7 @@ impl Prop for C11 {
         let progs = programs(tier);
         let wss = ws_strings(tier);
         for i in a..b {
-            out.idx = Some(i);
+            out.at(i);
             let t = &progs[i as usize];
             let text = parse::print(t, &ops, Parens::Minimal);
             let base = match engine::parse(&text) {
